@@ -100,6 +100,9 @@ def gen_mapseq(rng):
             ops.append([3] if r < qfail else ([2] if r < qfail + early else [0]))
             opened += 1
         else:
+            if rng.random() < 0.12:
+                ops.append([6])      # the mapping's handler is stopped and replaced while connections are in flight
+                continue
             r = rng.random()
             # [4,k]: tunnel k is closed from outside and its local socket's Close() parks (connection still open); [5,k]: it returns
             ops.append([4, rng.randrange(opened)] if r < 0.3 else ([5, rng.randrange(opened)] if r < 0.5 else [1, rng.randrange(opened)]))
@@ -228,7 +231,7 @@ def nontrivial(c, o):
     if m == "reg":
         return c["max"] > 0 and o["max_seen"] >= c["max"] and len(c["ops"]) > c["max"]
     if m == "mapseq":
-        return c["max"] > 0 and (2 in o["outcomes"] or o["max_seen"] > c["max"] or any(op[0] in (2, 3, 4) for op in c["ops"]))
+        return c["max"] > 0 and (2 in o["outcomes"] or o["max_seen"] > c["max"] or any(op[0] in (2, 3, 4, 6) for op in c["ops"]))
     if m == "regsched":
         return c["n"] >= 2
     if m == "quota":
